@@ -50,14 +50,17 @@ br_rsa_oaep_pad(const br_prng_class **rnd, const br_hash_class *dig,
 {
 	size_t k, hlen;
 	unsigned char *buf;
+	const unsigned char *nbuf;
 
 	hlen = br_digest_size(dig);
 
 	/*
-	 * Compute actual modulus length (in bytes).
+	 * Compute actual modulus length (in bytes): skip leading zeros.
 	 */
+	nbuf = pk->n;
 	k = pk->nlen;
-	while (k > 0 && pk->n[k - 1] == 0) {
+	while (k > 0 && *nbuf == 0) {
+		nbuf ++;
 		k --;
 	}
 
